@@ -893,6 +893,9 @@ func (fv *FuncVC) contractHeaps(cc *FuncContract, com *ssa.CallCommon) (heaps []
 			delete(touched, k)
 		}
 		for _, en := range cc.Ensures {
+			if len(cc.Locals) > 0 && exprMentionsIdent(en.E, cc.Locals) {
+				continue
+			}
 			env.trBool(en.E)
 		}
 		for k := range touched {
